@@ -26,6 +26,7 @@ type SchedResult struct {
 	Hash        uint64
 	SwitchSites []int
 	Violation   string
+	Aborted     bool
 }
 
 // RunConcurrent without instrumentation runs the tasks one after the other
